@@ -60,6 +60,69 @@ def _call_free(e):
     return True
 
 
+def _thread_kw_bundle(fn, s, nxt):
+    import copy
+    if not isinstance(nxt, (ast.Expr, ast.Assign, ast.Return, ast.AugAssign)):
+        return None
+    stars = [(c, k) for c in ast.walk(nxt) if isinstance(c, ast.Call) for k in c.keywords if k.arg is None and isinstance(k.value, ast.Name)]
+    if len(stars) != 1:
+        return None
+    call, kw = stars[0]
+    name = kw.value.id
+    loads = [n for n in ast.walk(fn) if isinstance(n, ast.Name) and n.id == name and isinstance(n.ctx, ast.Load)]
+    if len(loads) != 1:
+        return None
+    arms = _leaf_arms(s)
+    going = [a for a in arms if not (a and _syn_ends(a))]
+    if not going or len(going) != len(arms):
+        return None
+    dicts = []
+    for a in arms:
+        if not a:
+            return None
+        last = a[-1]
+        if not (isinstance(last, ast.Assign) and len(last.targets) == 1 and isinstance(last.targets[0], ast.Name) and
+                last.targets[0].id == name and isinstance(last.value, ast.Dict) and
+                all(isinstance(k, ast.Constant) and isinstance(k.value, str) and k.value.isidentifier() for k in last.value.keys) and
+                all(isinstance(v, (ast.Name, ast.Constant)) for v in last.value.values)):
+            return None
+        dicts.append(last.value)
+    # stores to the bundle anywhere else would make it something other than these literals
+    stores = [n for n in ast.walk(fn) if isinstance(n, ast.Name) and n.id == name and isinstance(n.ctx, ast.Store)]
+    if len(stores) != len(arms):
+        return None
+    given = set(k.arg for k in call.keywords if k.arg)
+
+    def with_call(arm, d):
+        if any(k.value in given for k in d.keys):
+            return None
+        stmt = copy.deepcopy(nxt)
+        for c in ast.walk(stmt):
+            if isinstance(c, ast.Call):
+                for k in list(c.keywords):
+                    if k.arg is None and isinstance(k.value, ast.Name) and k.value.id == name:
+                        idx = c.keywords.index(k)
+                        c.keywords[idx:idx + 1] = [ast.keyword(arg=kk.value, value=copy.deepcopy(vv)) for kk, vv in zip(d.keys, d.values)]
+        ast.fix_missing_locations(stmt)
+        return arm[:-1] + [stmt]
+
+    def rebuild(node, it):
+        body = with_call(node.body, next(it))
+        if body is None:
+            return None
+        if len(node.orelse) == 1 and isinstance(node.orelse[0], ast.If):
+            inner = rebuild(node.orelse[0], it)
+            if inner is None:
+                return None
+            orelse = [inner]
+        else:
+            orelse = with_call(node.orelse, next(it))
+            if orelse is None:
+                return None
+        return ast.copy_location(ast.If(test=node.test, body=body, orelse=orelse), node)
+    return rebuild(s, iter(dicts))
+
+
 def _flag_tested(s):
     if not isinstance(s, ast.If):
         return None
@@ -867,6 +930,14 @@ class Exec(object):
                 t1._named = True
                 stmts = stmts[:i + 1] + [t1] + rest[1:]
                 rest = stmts[i + 1:]
+            if isinstance(s, ast.If) and rest and not getattr(s, '_bundled', False):
+                # arms that end in `opts = {<literal keys>: ...}` followed by one call taking `**opts` (the only use of `opts`):
+                # the call is written into each arm with the keywords spelt out
+                s2 = _thread_kw_bundle(self.fn, s, rest[0])
+                if s2 is not None:
+                    s2._bundled = True
+                    stmts = stmts[:i] + [s2] + rest[1:]
+                    continue
             if isinstance(s, ast.If) and rest and len(rest) <= 4 and not getattr(s, '_flagged', False) and \
                     not any(isinstance(x, (ast.For, ast.While, ast.Try, ast.With)) for r_ in rest for x in ast.walk(r_)):
                 # arms that end in `flag = <constant>` followed by `if flag:`: the short rest of the block is written into
